@@ -50,10 +50,11 @@ CLAIMS = {
         text='Static. Decided clauses: convert_money and MoneyItem::convert_currency compute amount / rate(from) * rate(to); currency_rate is written only by load_from_json and update_currency with the resolved key and the rate parameter; '
              'arithmetic table of MoneyItem::calculate (currency kept, money/money -> number, operand conversion into self\'s currency); money regex groups; read_currency alias-then-code order; alias/rate keys exist. Not decided: f64 exactness.'),
     'C07': dict(
-        technique='offset-domain (string provenance) analysis of format_number; argument wiring of the four printers and of the setters',
+        technique='string-provenance rule on lengths used as indices, argument-wiring and decision-table extraction (format templates decoded from MIR constants), dependence analysis of float->int casts',
         ref='DESIGN.md section 5 C07',
-        text='Static, narrow. Decided clauses: a length measured on one rendering is only used to index that rendering (provenance rule); each format_number call site passes the fields the property names; '
-             'each public setter writes exactly its fields; the sign is pushed iff number < 0. Not decided: correct rounding/grouping/zero-fraction removal over all f64 (not reachable by this family).'),
+        text='Static, narrow. Decided clauses: N1 a length measured on one rendering is used as an index only into that rendering; N2 each of the four printers hands format_number the value, separators, digit count and flags from the fields the statement names (unit options with their documented defaults), percent prefixes %, units substitute {value}; '
+             'N3 each public setter writes exactly its fields from the same-named parameters and the three per-unit options keep their names at every construction site; N4 the minus sign is pushed iff number < 0, first, and the digits are those of |number|; N5 no saturating float->int cast is applied to a magnitude-dependent value inside the formatter; '
+             'N6 the printed shape of money for each (symbol_on_left, space_between) combination; N7 grouping modulus 3 and the role / order of the two separators. Not decided: correct rounding, zero-fraction removal and grouping for all f64 values and digit counts (numerical behaviour, not reachable by this family).'),
     'C08': dict(
         technique='effect analysis: field-read sets + call-graph layering (non-interference by absence of reads)',
         ref='DESIGN.md section 5 C08',
